@@ -304,10 +304,52 @@ func c04Check(c *Ctx, n mnode, count bool) {
 			}
 		}
 	}
+	// the same tree after an edit that keeps every length: each Stack of the tree reversed in place.
+	// Whatever Unmarshal (or anything else) remembered from the first pass no longer describes the tree.
+	rn := reverseDesc(n)
+	if p := noPanic(func() { reverseLive(orig); u, err = orig.Unmarshal() }); p != "" {
+		fail("panic:Unmarshal-after-edit", "Unmarshal after reversing every stack in place panicked: %s", p)
+		return
+	}
+	if count {
+		c.Transitions.Add(1)
+	}
+	if err != nil {
+		fail("unmarshal-error-after-edit", "Unmarshal after reversing every stack in place failed: %v", err)
+	} else if msg := checkUnmarshal(u, rn, orig, "S"); msg != "" {
+		fail("unmarshal-shape-after-edit", "after reversing every stack in place, Unmarshal differs from the reference unmarshaller: %s (got %v)", msg, u)
+	}
 	if count && len(n.Kids) > 0 {
 		c.Nontrivial(n.String())
 	}
 	c.Outcome(fmt.Sprint(len(u)))
+}
+
+func reverseDesc(n mnode) mnode {
+	switch n.T {
+	case "stack":
+		kids := make([]mnode, len(n.Kids))
+		for i, k := range n.Kids {
+			kids[len(n.Kids)-1-i] = reverseDesc(k)
+		}
+		n.Kids = kids
+	case "cond":
+		n.Kids = []mnode{reverseDesc(n.Kids[0])}
+	}
+	return n
+}
+
+func reverseLive(v any) {
+	if s, ok := refAsStack(v); ok {
+		s.Reverse()
+		for _, e := range contents(s) {
+			reverseLive(e)
+		}
+		return
+	}
+	if cd, ok := refAsCond(v); ok {
+		reverseLive(cd.Expression())
+	}
 }
 
 func c04Trees(c *Ctx) []mnode {
